@@ -103,8 +103,12 @@ package atp
 // A signalled entry has its result.
 //@ invariant executionEntry(e): signalled(e) ==> e.result != nil
 
+// C08: every decoder the client reads the server stream with rejects unknown fields (a garbled key is an error, not a
+// silently ignored field that leaves the previous run ID or an empty output in place)
+//@ invariant client(c): strictdec(c.decMode) && strictdec(c.decoder)
 //@ func NewClientWithLogger(channel, logger) -> res
 //@   requires channel != nil
+//@   ensures typeOf(res) == type(*client) && strictdec(res.(*client).decMode) && strictdec(res.(*client).decoder)
 
 // C08: no schema together with an error; a failed decode of the hello message is an error.
 //@ func client.ReadSchema(c) -> res, err
@@ -144,11 +148,13 @@ package atp
 //@   checks ghost("cborfail:message") > old(ghost("cborfail:message")) && runtimeMessage.RunID in c.runningStepResultEntries ==> c.runningStepResultEntries[runtimeMessage.RunID].result.Error != nil
 //@ func client.getResultV1(c, cborReader, stepData) -> res
 //@   requires c != nil && cborReader != nil
+//@   requires strictdec(cborReader)
 //@   ensures ghost("cborfail:stream") > old(ghost("cborfail:stream")) ==> res.Error != nil
 
 // A stream that cannot be decoded any more fails every pending call.
 //@ func client.executeReadLoop(c, cborReader)
 //@   requires c != nil && cborReader != nil && !locked(c)
+//@   requires strictdec(cborReader)
 //@   ensures ghost("cborfail:stream") > old(ghost("cborfail:stream")) ==> ghost("calls:atp.client.sendErrorToAll") > old(ghost("calls:atp.client.sendErrorToAll"))
 //@   loop 1 invariant !locked(c) && fatalErr == nil && ghost("cborfail:stream") == old(ghost("cborfail:stream")) && ghost("calls:atp.client.sendErrorToAll") >= old(ghost("calls:atp.client.sendErrorToAll"))
 // the deferred hand-over of the read loop (inlined where the loop returns)
@@ -158,6 +164,10 @@ package atp
 //@   requires c != nil && !locked(c)
 //@   ensures !locked(c) && ghost("cborfail:stream") == old(ghost("cborfail:stream")) && ghost("calls:atp.client.sendErrorToAll") >= old(ghost("calls:atp.client.sendErrorToAll"))
 //@   ensures fatal ==> ghost("calls:atp.client.sendErrorToAll") > old(ghost("calls:atp.client.sendErrorToAll"))
+// a step-fatal error that the server could not attribute to a run (blank run ID) wakes every waiting caller; one
+// that names a run completes that run's entry
+//@   checks errMessage.StepFatal && !errMessage.ServerFatal && runtimeMessage.RunID == "" ==> ghost("calls:atp.client.sendErrorToAll") > old(ghost("calls:atp.client.sendErrorToAll"))
+//@   checks errMessage.StepFatal && !errMessage.ServerFatal && runtimeMessage.RunID != "" && runtimeMessage.RunID in c.runningStepResultEntries ==> c.runningStepResultEntries[runtimeMessage.RunID].result != nil
 //@ func client.handleSignalMessage(c, runtimeMessage)
 //@   requires c != nil && !locked(c)
 //@   ensures !locked(c) && ghost("cborfail:stream") == old(ghost("cborfail:stream")) && ghost("calls:atp.client.sendErrorToAll") == old(ghost("calls:atp.client.sendErrorToAll"))
@@ -174,20 +184,29 @@ package atp
 // C06: starting a run registers its entry and makes sure a read loop is (marked) running; waiting for the result.
 //@ func client.prepareResultChannels(c, cborReader, stepData, emittedSignals) -> err
 //@   requires c != nil && !locked(c) && cborReader != nil
+//@   requires strictdec(cborReader)
 //@   ensures !locked(c)
+// no function of the client returns with the client mutex held (a goroutine that does blocks every later call)
 //@ func client.getResult(c, stepData, cborReader) -> res
 //@   requires c != nil && !locked(c) && cborReader != nil
+//@   requires strictdec(cborReader)
+//@   ensures !locked(c)
 //@ func client.getResultV2(c, stepData) -> res
 //@   requires c != nil && !locked(c)
+//@   ensures !locked(c)
 //@ func client.sendCBOR(c, message) -> err
 //@   requires c != nil && !locked(c)
 //@   ensures !locked(c)
 //@ func client.Execute(c, stepData, signalsToStep, signalsFromStep) -> res
 //@   requires c != nil && !locked(c)
+//@   ensures !locked(c)
 //@ func client.Close(c) -> err
 //@   requires c != nil && !locked(c)
+//@   ensures !locked(c)
 //@ func client.executeWriteLoop(c, runID, signalsToStep)
 //@   requires c != nil && !locked(c)
+//@   ensures !locked(c)
+//@   loop 1 invariant !locked(c)
 //@ func client.processWorkDone(c, runID, doneMessage) -> res
 //@   requires c != nil
 //@   ensures res.Error == nil && res.OutputID == doneMessage.OutputID
